@@ -3,7 +3,8 @@
 //            1: mock destroyed first, then the expectation released
 //            2: a no-match call lists it first (already named in a violation report), then release, then mock dies
 //            3: pre-saturated (sits in the saturated list), mock destroyed first, then released
-//            4: mock destroyed first AND the report at mock destruction already happened: released twice-safe (reset then scope exit)
+//            4: listed in a no-match report, then the MOCK dies first, then release
+//            5: listed in a no-match report, then it handles one more matching call but stays short, then release
 // Obligations: number, severity, location and content (name, required / actual counts) of the reports.
 #include "vfapi.h"
 #ifndef VF_ORDER
@@ -21,6 +22,8 @@ extern "C" void harness(void)
   size_t L = verif_nondet_ulong(), H = verif_nondet_ulong(), c = verif_nondet_ulong();
 #if VF_ORDER == 3
   verif_assume(L <= H && c == H && H > 0);
+#elif VF_ORDER == 5
+  verif_assume(L <= H && c < H && c + 1 < L);      // stays below its lower bound even after one more handled call
 #else
   verif_assume(L <= H && c <= H && (c != H || H == 0));
 #endif
@@ -41,7 +44,24 @@ extern "C" void harness(void)
   bool shortfall = c < L;
   unsigned want = 0;
 
-#if VF_ORDER == 2
+#if VF_ORDER == 4 || VF_ORDER == 5
+  { bool threw = false; try { m->f(8); } catch (vf_reported &) { threw = true; }
+    VCLAIM(4, threw && vf_nreports == 1 && vf_last.fatal, "C04.setup_no_match_listing"); }
+  want = 1;
+#if VF_ORDER == 4
+  delete m;
+  VCLAIM(4, vf_nreports == want, "C04.already_named_not_reported_again_when_mock_dies_first");
+  e.reset();
+  VCLAIM(4, vf_nreports == want, "C04.already_named_not_reported_again_at_release_after_mock");
+#else
+  m->f(7);
+  VCLAIM(4, vf_nreports == want && cm->sequences->get_calls() == c + 1, "C04.setup_handled_call_after_listing");
+  e.reset();
+  VCLAIM(4, vf_nreports == want, "C04.already_named_not_reported_again_after_handling_more_calls");
+  delete m;
+  VCLAIM(4, vf_nreports == want, "C04.nothing_at_mock_destruction_after_release");
+#endif
+#elif VF_ORDER == 2
   { bool threw = false; try { m->f(8); } catch (vf_reported &) { threw = true; }
     VCLAIM(4, threw && vf_nreports == 1 && vf_last.fatal, "C04.setup_no_match_listing"); }
   want = 1;
@@ -66,7 +86,7 @@ extern "C" void harness(void)
   e.reset();
   VCLAIM(4, vf_nreports == want, "C04.no_second_report_at_release");
 #endif
-#if VF_ORDER != 2
+#if VF_ORDER != 2 && VF_ORDER != 4 && VF_ORDER != 5
   if (shortfall)
   {
     VCLAIM(4, !vf_last.fatal, "C04.end_of_life_report_nonfatal");
